@@ -11,11 +11,11 @@ RULE = ("all histories of entering, leaving, aborting (exception at any point, c
         "in {0,1}, enumerated exhaustively by TLC from Guard.tla and each replayed into the real code; distinct = histories")
 
 
-def gen_histories(run, maxlen, maxdepth, simulate=None):
+def gen_histories(run, maxlen, maxdepth, simulate=None, kinds="{0, 1}"):
     with common.scratch("gen_") as d:
         cf = os.path.join(d, "gen.cfg")
         with open(cf, "w") as f:
-            f.write("SPECIFICATION Spec\nCONSTANT MaxDepth = %d\nCONSTANT MaxLen = %d\nINVARIANT EmitHist\nCHECK_DEADLOCK FALSE\n" % (maxdepth, maxlen))
+            f.write("SPECIFICATION Spec\nCONSTANT MaxDepth = %d\nCONSTANT MaxLen = %d\nCONSTANT RaiseKinds = %s\nINVARIANT EmitHist\nCHECK_DEADLOCK FALSE\n" % (maxdepth, maxlen, kinds))
         res = tlc.run("Guard", cfg=cf, workers=8, simulate=simulate, depth=(maxlen * 3 if simulate else None), seed=common.seed() if simulate else None)
     run.add_tlc(res, "Guard history generator")
     hs = set()
@@ -63,7 +63,7 @@ def to_program(pid, hist, style="guarded"):
             kinds.pop()
             n += 1
         elif a == "raise":
-            stack[-1].append({"op": "raise"})
+            stack[-1].append({"op": "raise", "kind": ["", "KeyboardInterrupt", "SystemExit", "GeneratorExit"][h["c"]]})
             n += 1
             n += unwind(stack, kinds)
         elif a == "try":
@@ -121,6 +121,7 @@ def view(tr):
             ev["ev"] = "marker"
         elif e["out"] == "raise":
             ev["ev"] = "raise"
+            ev["c"] = {"KeyboardInterrupt": 1, "SystemExit": 2, "GeneratorExit": 3}.get(e["exc"], 0)
         else:
             ev["ev"] = "call"
         evs.append(ev)
@@ -132,6 +133,8 @@ def main(tier):
     maxlen, maxdepth = (6, 3) if tier == "quick" else (8, 4)
     check_design(run, maxlen, maxdepth)
     hists = gen_histories(run, maxlen if tier == "quick" else 7, maxdepth)
+    # the same machinery with all four exception kinds (shorter histories: the kind multiplies the space)
+    hists += [h for h in gen_histories(run, 4 if tier == "quick" else 5, maxdepth, kinds="{0, 1, 2, 3}") if any(x["a"] == "raise" and x["c"] >= 2 for x in h)]
     if tier != "quick":
         hists += gen_histories(run, 14, 6, simulate="num=4000")
     progs = [to_program("h%d" % i, h) for i, h in enumerate(hists)]
